@@ -179,6 +179,8 @@ def shard(desc):
         if len(res.samples) < 2 and typ.endswith('3') and len(c.ops) < 30 and merges_ok:
             res.sample({'type': typ, 'program': [o[:120] for o in c.ops],
                         'last_observation': {k: v[:120] for k, v in [r for r in recs if r.kind == 'o'][-1].kv.items()}})
+    if plan:
+        res.ensure_sample(plan[0][0])
     return res
 
 
